@@ -44,6 +44,8 @@ def pool():
             '5', '-2', '1.5', ' 7 ', '1_0', '+3', '007', '.5', '5.', '-0', '1e2', 'abc', '', 'q1a', 'x y', 'TRUE', '#N/A',
             '2020-01-15', '2020-01-15 12:00:00', '1900-03-01',
             # whole numbers that no double holds, as integers and as numeric text (the conversion must not pass through a double)
+            # text with quotation marks of either kind at its ends (also written as a LITERAL delimited by the other kind)
+            "'", '"', "'abc'", '"3"', "12'", 'say "hi"', "'7", '5"',
             2 ** 53 + 1, -(2 ** 53) - 1, 10 ** 22 + 1, '9007199254740993', '-9007199254740993', '18014398509481985',
             '123456789012345678901', ' 9007199254740993 ',
             D(1900, 1, 1), D(1900, 1, 2), D(1900, 2, 28), D(1900, 3, 1), D(2020, 1, 15), D(2020, 1, 15, 6, 0), D(1999, 12, 31, 23, 59, 59),
@@ -77,9 +79,17 @@ def cases(rng, ctx):
         ars = [k for k, v in enumerate(allv) if isinstance(v, list)]
         core += [(i, j) for i in ars for j in ars]       # arrays against arrays (one-element collapse, nesting): complete
         pairs = core + rng.sample(pairs, k)
+    quoted = [k for k, v in enumerate(allv) if isinstance(v, str) and ('"' in v or "'" in v)]
+    pairs = pairs + [(i, j) for i in quoted for j in list(range(17)) + quoted] + [(j, i) for i in quoted for j in range(17)]
     for i, j in pairs:
         for op in OPS:
-            out.append({'kind': 'pair', 'op': op, 'i': i, 'j': j})
+            c = {'kind': 'pair', 'op': op, 'i': i, 'j': j}
+            out.append(c)
+            if (i in quoted or j in quoted) or (isinstance(allv[i], str) or isinstance(allv[j], str)) and rng.random() < 0.1:
+                # the text operands written as literals in the formula instead of arriving through variables
+                c2 = dict(c)
+                c2['lit'] = True
+                out.append(c2)
     return out
 
 
@@ -109,11 +119,30 @@ def modelled(v):
     return True
 
 
+def lit_text(v):
+    """a string as a formula literal, delimited by a quote kind it does not contain (None if it contains both)"""
+    if not isinstance(v, str) or '\\' in v:
+        return None
+    for q in ('"', "'"):
+        if q not in v:
+            return q + v + q
+    return None
+
+
+def formula_of(c):
+    a, b = _vals(c)
+    x, y = 'x', 'y'
+    if c.get('lit'):
+        x = lit_text(a) or 'x'
+        y = lit_text(b) or 'y'
+    return x + c['op'] + y
+
+
 def request(c):
     a, b = _vals(c)
     if not (modelled(a) and modelled(b)):
         return None
-    return 'eval %s %s' % (common.enc_str('x' + c['op'] + 'y'), fx.env_wire(variables={'x': a, 'y': b}))
+    return 'eval %s %s' % (common.enc_str(formula_of(c)), fx.env_wire(variables={'x': a, 'y': b}))
 
 
 _p = [None]
@@ -130,7 +159,7 @@ def impl(c):
     a0, b0 = copy.deepcopy(a), copy.deepcopy(b)
     p.set_variable('x', a)
     p.set_variable('y', b)
-    r = p.parse('x' + c['op'] + 'y')
+    r = p.parse(formula_of(c))
     r['_unchanged'] = (repr(a0) == repr(a) and repr(b0) == repr(b))
     return r
 
